@@ -95,7 +95,7 @@ def pWit (verifyOf : Bytes → Bytes → Bytes → Bool) : P Wit := fun ts => do
     let (cost, r) ← pNat r
     let (k, r) ← pTok r
     let res : WRes := if k == "o" then .ok cost else if k == "i" then .invalidSig cost else .fail
-    pure (.opaque (fun lim => if cost ≤ lim then res else .fail), r)
+    pure (.contract (fun lim => if cost ≤ lim then res else .fail), r)
   else none
 
 /-- the `pairs` fields of all `W` witnesses of a line, concatenated (the valid key‖signature pairs). -/
